@@ -70,13 +70,13 @@ static Val pool_value(uint64_t id, int which) {
   Val v;
   switch (id) {
     case 0: v.raw = which == 1 ? "a" : std::string(130, 'q') + "tail"; break;  // 134 bytes: length and entry size in the U8 class
-    case 1: {
+    case 128: {
       int32_t e[2] = {1, 2};
       if (which == 2) { e[0] = -70000; e[1] = 0x01020304; }
       v.raw.assign(reinterpret_cast<const char*>(e), 8);
       break;
     }
-    case 128: v.u = which == 1 ? 5 : ((1ULL << 40) + 3); break;
+    case 0x100000001ULL: v.u = which == 1 ? 5 : ((1ULL << 40) + 3); break;
     default: {  // 65536: structure {uint8, string}
       v.kids.resize(2);
       v.kids[0].u = which == 1 ? 7 : 200;
